@@ -84,6 +84,15 @@ def run(ctx):
     ok, hcode = try_py(module_const(prog, 'message', '_hcode'))
     if not ok:
         raise AnalysisError('message._hcode is not a constant table')
+    hcode_is_mapping = isinstance(hcode, dict)
+    if isinstance(hcode, (tuple, list)):
+        # a table indexed by the code (code -> name, gaps as None)
+        hcode = {i: v for i, v in enumerate(hcode) if v is not None}
+    elif not hcode_is_mapping:
+        raise AnalysisError('message._hcode is neither a mapping nor a '
+                            'sequence')
+    ctx.extra['hcode_table_kind'] = 'mapping' if hcode_is_mapping \
+        else 'sequence'
     mtype = module_const(prog, 'message', '_mtype')
     if kind(mtype) != 'dict':
         raise AnalysisError('message._mtype is not a literal table')
@@ -140,7 +149,7 @@ def run(ctx):
         paths = it.run(mfi)
         done = header_typing_unrolled(ctx, c, mfi)
         marshal_rules(ctx, c, mfi, paths, selft, skip_typing=done)
-    reader_rules(ctx, classes)
+    reader_rules(ctx, classes, hcode_is_mapping)
     serial_rules(ctx)
     constructor_rules(ctx, classes)
     ctx.floor('C03.D1', 30)
@@ -493,7 +502,7 @@ def all_stores_wrapped(prog, attr, wtype):
     return True, ''
 
 
-def reader_rules(ctx, classes):
+def reader_rules(ctx, classes, table_is_mapping=True):
     prog = ctx.prog
     fi = prog.func('message.parseMessage')
     it = Interp(prog, exc_edges=False)
@@ -656,8 +665,17 @@ def reader_rules(ctx, classes):
                 if not edges:
                     continue
                 n_unknown += 1
+                # what the lookup raises for an unknown code depends on the
+                # table: KeyError for a mapping, IndexError for a sequence -
+                # the handler taken on this edge must be one that catches it
+                want = 'KeyError' if table_is_mapping else 'IndexError'
+                caught = [e for e in bp.trace if e[0] == 'except']
+                catches = (not caught) or any(
+                    set(e[1]) & {want, 'LookupError', 'Exception',
+                                 'BaseException', ''} or not e[1]
+                    for e in caught)
                 ctx.ob('C03.D3', q, 'unknown-code-skips-one-field',
-                       bp.outcome == 'continue',
+                       bp.outcome == 'continue' and catches,
                        'a header field with a code that is not in _hcode '
                        '(KeyError) must be skipped and the loop must go on '
                        'with the next field; on this path the exception '
